@@ -422,9 +422,9 @@ func runC11(c *core.Ctx) core.Meta {
 				}
 				return 0
 			})
-			ok := g.Guarded(d, emptyCut)
+			ok := g.Guarded(d, AnyCut(emptyCut, copySizeCut(prov, true)))
 			st2.Ob(ok)
-			st2.Sample("%s: Dequeue guarded by len(cmd.Reqs)==0: %v", name, ok)
+			st2.Sample("%s: Dequeue guarded by len(cmd.Reqs)==0 (or by a zero copy size): %v", name, ok)
 			if !ok {
 				c.ReportAt("R11.2", fn, d.Instr.Pos(), "Dequeue:guard", "the copy command is dequeued on a path that did not find its outstanding-request list empty: it completes before all its transactions completed")
 			}
@@ -437,11 +437,25 @@ func runC11(c *core.Ctx) core.Meta {
 					}
 				}
 			}
+			if !paired {
+				// a command that never started running (zero-length copy) has nothing to clear
+				started := false
+				for _, n := range g.Nodes {
+					if s, ok := storeToField(n.Instr, "CommandQueue.IsRunning"); ok {
+						if b, isC := core.ConstBool(s.Val); isC && b {
+							if after, _ := g.Reach(core.After(n, nil), core.WalkOpts{}); after[d] {
+								started = true
+							}
+						}
+					}
+				}
+				paired = !started
+			}
 			st2.Ob(paired)
 			if !paired {
 				c.ReportAt("R11.2", fn, d.Instr.Pos(), "Dequeue:IsRunning", "Dequeue without clearing IsRunning: the queue never processes its next command")
 			}
-			if strings.Contains(name, "D2H") {
+			if strings.Contains(name, "D2H") && !g.Guarded(d, copySizeCut(prov, true)) {
 				filled := false
 				for _, n := range g.Nodes {
 					if core.IsCall(n.Instr, "encoding/binary.Read") {
@@ -564,6 +578,33 @@ func runC11(c *core.Ctx) core.Meta {
 		st2.Ob(inc)
 		if !inc {
 			c.ReportAt("R11.2", ap, ap.Pos(), "append:count", "registering a transaction does not increase the outstanding count by one")
+		}
+	}
+
+	// ---------------- R11.7 a copy with nothing to move still completes ----------------
+	st7 := c.Rule("R11.7", "a copy command is put into the running state only on a path on which its size was found non-zero: the splitting loop creates no request for an empty copy, so nothing would ever complete it and the queue (and every later DrainCommandQueue) would block forever", 2)
+	for _, fname := range []string{"defaultMemoryCopyMiddleware.processMemCopyH2DCommand", "defaultMemoryCopyMiddleware.processMemCopyD2HCommand"} {
+		fn := c.MustFunc("R11.7", driverPkg, fname)
+		if fn == nil {
+			continue
+		}
+		c.MarkAnalysed(fn)
+		g := core.BuildGraph(fn, 0, nil)
+		for _, n := range g.Nodes {
+			s, ok := storeToField(n.Instr, "CommandQueue.IsRunning")
+			if !ok {
+				continue
+			}
+			if b, isC := core.ConstBool(s.Val); !isC || !b {
+				continue
+			}
+			st7.Instances++
+			okG := g.Guarded(n, copySizeCut(prov, false))
+			st7.Ob(okG)
+			st7.Sample("%s: IsRunning=true only for a non-empty copy: %v", fname, okG)
+			if !okG {
+				c.ReportAt("R11.7", fn, n.Instr.Pos(), "zero-length:IsRunning", "the command is marked running also when the copy is empty: the loop `for sizeLeft > 0` then creates no request, no response ever arrives to dequeue the command, and the queue is stuck (a zero-length copy never completes)")
+			}
 		}
 	}
 
@@ -1074,4 +1115,29 @@ func isMinHelper(fn *ssa.Function) bool {
 		}
 	}
 	return true
+}
+
+// copySizeCut: edges on which the size of the copied host value (binary.Size(...)
+// or len of the serialised bytes, not the request list) is zero (wantZero) or non-zero.
+func copySizeCut(prov *core.Prov, wantZero bool) EdgeCut {
+	return CmpCut(func(_ *core.Node, op token.Token, x, y ssa.Value) int {
+		pv := prov.Of(core.StripConv(x))
+		if strings.Contains(pv, ".Reqs") || !(strings.Contains(pv, "binary.Size(") || strings.HasPrefix(pv, "len(")) {
+			return 0
+		}
+		if z, ok := core.ConstInt(y); !ok || z != 0 {
+			return 0
+		}
+		d := 0
+		switch op {
+		case token.EQL, token.LEQ:
+			d = 1 // zero on the true edge
+		case token.NEQ, token.GTR:
+			d = -1
+		}
+		if !wantZero {
+			d = -d
+		}
+		return d
+	})
 }
